@@ -1,10 +1,10 @@
 CHECK = dict(
     level="fault_enumeration", engine="F",
     technique="exhaustive fault-point enumeration: cancel injected at every k-th IsCancelled check of every program (hook H2), outcome compared with the uncancelled run",
-    level_text=("For 24 context-observed programs (deferred trees incl. shared sub-expressions and shared impl_, BatchBoolean, Refine*, Hull, "
+    level_text=("For 26 context-observed programs (deferred trees incl. shared sub-expressions and shared impl_, BatchBoolean, Refine*, Hull, "
                 "Minkowski*, FromMeshGL, Smooth, LevelSet) the number N of cancellation checks of the uncancelled run is measured and the program "
                 "is re-run with the cancel flag raised exactly at check k for EVERY k in 1..N. Each run must return the complete result "
-                "(bit-identical up to mesh-ID renaming) or an empty Cancelled manifold that stays Cancelled; operands must be untouched; rebuilding "
+                "(bit-identical up to mesh-ID renaming) or an empty Cancelled manifold that stays Cancelled; operands and other handles that share already evaluated sub-expressions must be untouched; rebuilding "
                 "from the operands with a fresh context must give the reference result; a cancelled context must short-circuit later evaluations; "
                 "progress samples taken at every check must be non-decreasing, <= 1 and end at 1."),
     level_note=("Trusted: hook H2 (the probe sits inside IsCancelled, the only reader of the flag, so 'Cancel() from another thread at any moment' "
